@@ -216,3 +216,50 @@ pub fn stream_write_all(active: bool, data: &[u8], script: Vec<i64>) -> (bool, V
   let received = received.borrow().clone();
   (ok, received)
 }
+
+fn component_codes(path: &Path) -> Vec<String> {
+  use std::os::unix::ffi::OsStrExt;
+  path
+    .components()
+    .map(|component| match component {
+      path::Component::Prefix(_) => "X".to_owned(),
+      path::Component::RootDir => "R".to_owned(),
+      path::Component::CurDir => "C".to_owned(),
+      path::Component::ParentDir => "P".to_owned(),
+      path::Component::Normal(name) => {
+        let mut code = "N".to_owned();
+        for byte in name.as_bytes() {
+          code.push_str(&format!("{byte:02x}"));
+        }
+        code
+      }
+    })
+    .collect()
+}
+
+fn path_of(text: &[u8]) -> PathBuf {
+  use std::os::unix::ffi::OsStrExt;
+  PathBuf::from(OsStr::from_bytes(text))
+}
+
+/// The path algebra imdl relies on, on raw path texts: `Path::components()` of
+/// the text, of the text collected back into a `PathBuf`, of its `lexiclean()`
+/// and of `a.join(b)`; components are coded `R`, `C`, `P`, `N<hex>`. The second
+/// value of `path_components` is the collected path as text.
+pub fn path_components(text: &[u8]) -> (Vec<String>, Vec<u8>) {
+  use std::os::unix::ffi::OsStrExt;
+  let path = path_of(text);
+  let collected: PathBuf = path.components().collect();
+  (
+    component_codes(&path),
+    collected.as_os_str().as_bytes().to_vec(),
+  )
+}
+
+pub fn path_lexiclean(text: &[u8]) -> Vec<String> {
+  component_codes(&path_of(text).lexiclean())
+}
+
+pub fn path_join(a: &[u8], b: &[u8]) -> Vec<String> {
+  component_codes(&path_of(a).join(path_of(b)))
+}
